@@ -18,14 +18,18 @@ every rank calls match.main(comp, stub_likelihood), rank 0 prints
 
 The stub likelihood has the attributes match.main uses (fn_dir, out_dir, temp_dir, base_out_dir, is_mse=False);
 run_sympify is the real Likelihood.run_sympify (unless the variant asks for an exception there);
-negloglike(params, eq_numpy, integrated=...) never evaluates eq_numpy: it looks the value up in the table of the
-function most recently passed to run_sympify, keyed on which entries of params are exactly zero.
+negloglike(params, eq_numpy, integrated=...) never evaluates eq_numpy: it identifies the variant FROM eq_numpy
+(every variant string ends in a unique integer constant >= 1000, which is found again in the docstring of the
+lambdified function -- so a stale eq_numpy of an earlier variant selects that earlier variant's table, exactly
+as the real likelihood would evaluate the earlier function) and looks the value up in that variant's table,
+keyed on which entries of params are exactly zero.
 """
 import contextlib
 import csv
 import io
 import json
 import os
+import re
 import shutil
 import sys
 import warnings
@@ -48,14 +52,17 @@ class Lik:
         self.out_dir = d + "/out/o"
         self.temp_dir = d + "/out/t"
         self.by_fcn = {v["fcn"].strip(): v for v in variants}
-        self.cur = None
+        self.by_id = {}
+        for v in variants:
+            m = re.findall(r"\b[1-9]\d{3,}\b", v["fcn"])
+            if len(m) == 1:
+                self.by_id[m[0]] = v
         self.calls = []
 
     def run_sympify(self, fcn_i, tmax=5, try_integration=False):
         import esr.fitting.likelihood as L
         key = fcn_i.replace("\n", "").replace("'", "").strip()
         v = self.by_fcn[key]
-        self.cur = v
         how = v.get("sympify", "ok")
         if how == "nameerror":
             raise NameError("name 'verif_missing' is not defined")
@@ -67,8 +74,12 @@ class Lik:
         import numpy as np
         a = np.ravel(np.asarray(a, dtype=float))
         key = "".join("1" if x == 0 else "0" for x in a)
-        self.calls.append([self.cur["fcn"], key])
-        return fl(self.cur["table"].get(key, self.cur.get("dflt", "nan")))
+        ids = re.findall(r"\b[1-9]\d{3,}\b", (eq_numpy.__doc__ or "").split("Expression:")[-1].split("Source code:")[0])
+        if len(set(ids)) != 1 or ids[0] not in self.by_id:
+            raise RuntimeError("c05 stub: cannot identify the function behind eq_numpy: %r" % ids)
+        cur = self.by_id[ids[0]]
+        self.calls.append([cur["fcn"], key])
+        return fl(cur["table"].get(key, cur.get("dflt", "nan")))
 
 
 def write_inputs(lik, comp, lib):
